@@ -244,10 +244,12 @@ func (s *httpServer) doPUB(w http.ResponseWriter, req *http.Request, ps httprout
 		if err != nil {
 			return nil, http_api.Err{400, "INVALID_DEFER"}
 		}
-		deferred = time.Duration(di) * time.Millisecond
-		if deferred < 0 || deferred > s.nsqd.getOpts().MaxReqTimeout {
+		// compare in milliseconds: converting an out-of-range value to
+		// time.Duration first would overflow and could wrap into the valid range
+		if di < 0 || di > int64(s.nsqd.getOpts().MaxReqTimeout/time.Millisecond) {
 			return nil, http_api.Err{400, "INVALID_DEFER"}
 		}
+		deferred = time.Duration(di) * time.Millisecond
 	}
 
 	msg := NewMessage(topic.GenerateID(), body)
